@@ -123,6 +123,11 @@ class KernelGen:
             else:
                 self.decls.append(decl(x, 'real', 'none', [(ilit(1), S), (ilit(1), ilit(2))]))
             self.tmp_undef.append((x, kind))
+        self.buffer = None
+        if self.callees and not self.flat:
+            # a temporary reserved for buffering values across the first call (defined before, read after the call)
+            self.buffer = 'ztb'
+            self.decls.append(decl('ztb', 'real', 'none', [(ilit(1), S)]))
         self.decls.append(decl(dc['index'], 'int'))
         self.decls.append(decl(dc['jk'], 'int'))
 
@@ -352,19 +357,39 @@ class KernelGen:
         g = rng.choice(self.callees)
         args = [V(dc['lo']), V(dc['hi']), V(dc['size']), V(dc['nz'])]
         used = set()
+        # a temporary that buffers values across the call (defined before, read after: must not be demoted)
+        buf = None
+        und1 = [t for t in self.tmp_undef if t[1] == 't1']
+        if self.buffer and (self.arr1 or self.arr2):
+            buf = (self.buffer, 't1')
+            self.buffer = None
+        elif und1 and (self.arr1 or self.arr2) and rng.random() < 0.6:
+            buf = rng.choice(und1)
+            self.tmp_undef.remove(buf)
+        if buf is not None:
+            self.body.append(self.hloop([assign(IDX(buf[0], V(dc['index'])), self.expr(dict(jl=True, jk=None), 1))]))
+            self.arr1.append(buf[0])
+            self.wr1.append(buf[0])
+        locals_ = {str(d[1]) for d in self.decls if str(d[3]) == 'none'}
         for (x, rank, intent) in g['arrays']:
             pool = self.arr2 if rank == 2 else self.arr1
             wpool = self.wr2 if rank == 2 else self.wr1
-            cand = [a for a in (pool if intent == 'in' else wpool) if a not in used]
+            cand = [a for a in (pool if intent == 'in' else wpool) if a not in used and (buf is None or a != buf[0])]
             if not cand:
                 return
-            a = rng.choice(cand)
+            loc = [a for a in cand if a in locals_]
+            a = rng.choice(loc) if loc and rng.random() < 0.5 else rng.choice(cand)
             used.add(a)
             args.append(V(a))
         # an array written by the callee must not be passed twice / read through another dummy
         if g['scalar']:
             args.append(V(rng.choice(self.scal)) if self.scal else rlit(rng.choice(LITS)))
         self.body.append(callsub(g['name'], *args))
+        if buf is not None and (self.wr1 or self.wr2):
+            JL = V(dc['index'])
+            tgt = self.target(dict(jl=True, jk=None))
+            if not (h(tgt) == 'idx' and str(tgt[1]) == buf[0]):
+                self.body.append(self.hloop([assign(tgt, BIN('add', IDX(buf[0], JL), BIN('mul', tgt, rlit(Fraction(1, 2)))))]))
 
     def build(self):
         rng = self.rng
@@ -404,7 +429,7 @@ def gen_sig(rng, name):
 def gen_tree_candidate(rng, gcfg):
     dci = rng.randrange(len(DIMCFGS))
     dc = DIMCFGS[dci]
-    nk = rng.randint(*gcfg['n_kernels'])
+    nk = rng.choice((1, 2, 2, 3)) if tuple(gcfg['n_kernels']) == (1, 3) else rng.randint(*gcfg['n_kernels'])
     sigs = [gen_sig(rng, f'kern{k + 1}') for k in range(nk)]
     units = []
     for k in range(nk):
@@ -570,6 +595,8 @@ def apply_scheduler(prog, make_pipeline, extra_files=None, keep=None):
     return {unit name: transformed Subroutine} (in program order) and the scheduler"""
     from loki.batch import Scheduler, SchedulerConfig
     from loki.frontend import FP
+    from loki.logging import set_log_level, log_levels
+    set_log_level(log_levels['ERROR'])
     d = Path(tempfile.mkdtemp(prefix='c37_'))
     try:
         names = []
@@ -643,7 +670,7 @@ def fgen_tree(routines):
 # ---------------------------------------------------------------------------------------------------------------
 # running Loki's fgen text of a transformed tree with gfortran (same driver / canonical output as fir.run_gfortran)
 
-def run_text_gfortran(prog, text_items, flags=(), timeout=60, prelude='', module=False):
+def run_text_gfortran(prog, text_items, flags=(), timeout=60, prelude='', module=False, nobounds=False):
     """``text_items``: list of (fortran source of the transformed units, inputs); the driver that initialises the dummies,
     calls the main unit and prints the canonical output is generated from the ORIGINAL program ``prog`` (the interface of
     the main unit is unchanged by every transformation considered).  Returns results like fir.run_gfortran."""
@@ -660,7 +687,7 @@ def run_text_gfortran(prog, text_items, flags=(), timeout=60, prelude='', module
             f = d / f't{k}.F90'
             f.write_text(src)
             exe = d / f't{k}.x'
-            p = subprocess.run([fir.GFORTRAN] + fir.GFORTRAN_FLAGS + list(flags) + ['-o', str(exe), str(f)], cwd=d,
+            p = subprocess.run([fir.GFORTRAN] + [x for x in fir.GFORTRAN_FLAGS if not (nobounds and x == '-fcheck=bounds')] + list(flags) + ['-o', str(exe), str(f)], cwd=d,
                                stdout=subprocess.PIPE, stderr=subprocess.STDOUT, text=True)
             if p.returncode != 0:
                 msg = [l for l in p.stdout.splitlines() if 'Error' in l]
@@ -996,7 +1023,7 @@ class C37(Prop):
         return [K_SHOIST, K_EMPTY]
 
     def gen(self, rng, tier):
-        n_scc, n_flat, gf = {'quick': (14, 10, 0), 'thorough': (75, 50, 1), 'search': (30, 20, 0)}.get(tier, (14, 10, 0))
+        n_scc, n_flat, gf = {'quick': (14, 10, 0), 'thorough': (60, 40, 1), 'search': (30, 20, 0)}.get(tier, (14, 10, 0))
         pipes = list(PIPELINES)
         for k in range(n_flat):
             cfg, unit, ins = gen_flat(rng)
